@@ -1054,6 +1054,8 @@ theorem assign_tree (m : Mode) (T : Tree) (tin : Nat) (h : T.isNode = true)
   have hgood := devsOf_good T 0 tin hw
   have htopo : topoLoop (([] : List Dev).map Dev.shape) ((devsOf T 0 tin).map Dev.shape) = .ok (expected T 0 none) := by
     rw [devsOf_shape]; exact topoLoop_tree T h hn
+  have hopen : ∀ d ∈ mkDevs (visit T 0 tin).1, 1 ≤ d.ports.openPorts := fun d hd => (hgood d hd).1.1
+  rw [assign_eq_loop m _ hopen]
   exact assignLoop_of_topo m (devsOf T 0 tin) [] 0 (expected T 0 none) (by simp) hgood htopo
 
 
@@ -1162,6 +1164,15 @@ theorem chainDevs_ports (d d' : Dev) (ds : List Dev) (hp : d'.ports = d.ports) (
     rcases h with ⟨g, t, k, r⟩
     exact ⟨⟨⟨by rw [hp]; exact g.1.1, by rw [hp]; exact g.1.2⟩, by rw [hp]; exact g.2⟩, by rw [hp]; exact t, by rw [hp]; exact k, r⟩
 
+theorem chainDevs_all (d : Dev) (ds : List Dev) (h : ChainDevs (d :: ds)) : ∀ x ∈ d :: ds, Good2 x := by
+  induction ds generalizing d with
+  | nil => intro x hx; simp at hx; subst hx; exact h
+  | cons y ys ih =>
+    intro x hx
+    rcases List.mem_cons.1 hx with rfl | hx
+    · exact h.1
+    · exact ih y h.2.2.2 x hx
+
 theorem chain_loop (m : Mode) (rest : List Dev) :
     ∀ (pre : List Dev) (prev : Dev) (accum : Nat),
     Indexed 0 (pre ++ [prev]) → Indexed (pre.length + 1) rest → ChainDevs (prev :: rest) →
@@ -1213,7 +1224,7 @@ theorem chain_run (m : Mode) (d0 : Dev) (rest : List Dev)
   have hg : Good2 d0 := chainDevs_head d0 rest hchain
   have hfirst : assignParentRelationships m (d0 :: rest)
       = assignLoop m ([] ++ [{ d0 with parent := none }]) 0 rest := by
-    unfold assignParentRelationships
+    rw [assign_eq_loop m _ (fun d hd => (chainDevs_all d0 rest hchain d hd).1.1)]
     rw [assignLoop]
     simp only [findParent_nil, assignStep]
     by_cases hdc : d0.dc = true
@@ -1594,27 +1605,41 @@ theorem good_latchOne (i : Nat) (r : Report) (ho : 1 ≤ r.openCount)
 
 
 
-theorem configureDc_panic_wrapping (now : Nat) (rs : List Report) (ws : List Write) (w : String)
-    (hopen : ∀ r ∈ rs, 1 ≤ r.openCount)
+/-- `assign_parent_relationships` never panics on indexed devices with `u32` receive times. -/
+theorem assign_no_panic (m : Mode) (devs : List Dev) (w : String)
+    (htimes : ∀ d ∈ devs, TimesOk d.ports) (hidx : Indexed 0 devs) :
+    assignParentRelationships m devs ≠ .panic w := by
+  rcases assign_cases m devs with he | ⟨hopen, hl⟩
+  · rw [he]; simp
+  · rw [hl]
+    exact assignLoop_no_panic m devs [] 0 w (by simp) (fun d hd => ⟨hopen d hd, htimes d hd⟩) hidx
+
+theorem timesOk_latchOne (i : Nat) (r : Report)
+    (ht : r.t0 < U32 ∧ r.t1 < U32 ∧ r.t2 < U32 ∧ r.t3 < U32) : TimesOk (latchOne i r).ports := by
+  have hz : (0 : Nat) < U32 := by decide
+  unfold latchOne
+  split
+  · exact ⟨ht.1, ht.2.2.2, ht.2.1, ht.2.2.1⟩
+  · exact ⟨hz, hz, hz, hz⟩
+
+theorem configureDc_no_panic_wrapping (now : Nat) (rs : List Report) (ws : List Write) (w : String)
     (htimes : ∀ r ∈ rs, r.t0 < U32 ∧ r.t1 < U32 ∧ r.t2 < U32 ∧ r.t3 < U32)
-    (hnow : now < U64) (hrx : ∀ r ∈ rs, r.rx < U64)
-    (h : configureDc .wrapping now rs = (ws, .panic w)) : w = "no free ports on parent" := by
+    (hnow : now < U64) (hrx : ∀ r ∈ rs, r.rx < U64) :
+    configureDc .wrapping now rs ≠ (ws, .panic w) := by
+  intro h
   unfold configureDc at h
   cases ha : assignParentRelationships .wrapping (latch rs) with
   | panic w' =>
-    rw [ha] at h
-    simp only [Prod.mk.injEq, Outcome.panic.injEq] at h
-    rw [← h.2]
-    refine assignLoop_panic_only_nofree .wrapping (latch rs) [] 0 w' (by simp) ?_
+    refine assign_no_panic .wrapping (latch rs) w' ?_
       (mkDevsFrom_indexed' _ (fun i r => (latchOne_fields i r).1) rs 0) ha
     intro d hd
     rcases mkDevsFrom_mem _ _ _ d hd with ⟨i, r, hr, rfl⟩
-    exact good_latchOne i r (hopen r hr) (htimes r hr)
+    exact timesOk_latchOne i r (htimes r hr)
   | err e => rw [ha] at h; simp at h
   | ok out =>
     rw [ha] at h
     simp only at h
-    have hidk := assignLoop_idk .wrapping (latch rs) [] 0 out ha
+    have hidk := assignLoop_idk .wrapping (latch rs) [] 0 out (assign_ok_loop _ _ _ ha)
     simp only [List.nil_append] at hidk
     cases hf : (out.find? (fun d => d.dc)).map (·.index) with
     | none => rw [hf] at h; simp at h
